@@ -217,3 +217,47 @@ def number_token(draw, spellings=("int", "fixed", "exp", "plus", "dotlead", "dot
 
 
 SEP = st.sampled_from([" ", "  ", "\t", "   ", " \t", "\t\t"])
+
+
+# ---------------------------------------------------------------------------------------
+# scaffold variation: things a generator tends to keep fixed although the properties quantify over them
+
+TITLE_SPELLINGS = {
+    "V": ["~V", "~Version", "~VERSION INFORMATION", "~Version Information Section ---", "~v", "~version", "~vERSION info"],
+    "W": ["~W", "~Well", "~WELL INFORMATION BLOCK", "~Well ------", "~w", "~well information", "~wELL"],
+    "C": ["~C", "~Curves", "~CURVE INFORMATION", "~Curve Information ----", "~c", "~curve information", "~cURVES"],
+    "P": ["~P", "~Params", "~PARAMETER INFORMATION", "~Parameter ---", "~p", "~parameter information block", "~pARAM"],
+    "O": ["~O", "~Other", "~OTHER INFORMATION", "~Other ----", "~o", "~other information", "~oTHER"],
+    "A": ["~A", "~ASCII", "~ASCII LOG DATA", "~A  DEPT  GR  NPHI", "~Ascii -----", "~a", "~ascii log data", "~aSCII"],
+}
+
+
+@st.composite
+def scaffold(draw, p=3):
+    """A description of presentation-neutral variations of a FileSpec's scaffold (applied by apply_scaffold):
+    title spellings (either case), a WRAP NO item present or absent, an explicit DLM SPACE item."""
+    if draw(st.integers(0, p)) != 0:
+        return {}
+    v = {"titles": {k: draw(st.sampled_from(TITLE_SPELLINGS[k])) for k in "VWCPOA" if draw(st.booleans())}}
+    v["drop_wrap_no"] = draw(st.integers(0, 3)) == 0
+    v["dlm_space"] = draw(st.integers(0, 3)) == 0
+    return v
+
+
+def apply_scaffold(spec, var):
+    """Apply a scaffold() description in place. Only content-neutral changes: a WRAP item is removed only when it
+    says NO (a file without WRAP item is read as not wrapped as far as the content is concerned)."""
+    if not var:
+        return spec
+    from .lastext import item
+
+    for sec in spec["sections"]:
+        t = var.get("titles", {}).get(sec["kind"])
+        if t:
+            sec["title"] = t
+        if sec["kind"] == "V":
+            if var.get("drop_wrap_no"):
+                sec["lines"] = [ln for ln in sec["lines"] if not (ln.get("t") == "item" and ln["m"].upper() == "WRAP" and ln["v"] == "NO")]
+            if var.get("dlm_space") and not any(ln.get("t") == "item" and ln["m"].upper() == "DLM" for ln in sec["lines"]):
+                sec["lines"].append(item("DLM", "", "SPACE", "delimiter"))
+    return spec
